@@ -10,7 +10,7 @@ import argparse, concurrent.futures, hashlib, json, os, random, re, shutil
 import subprocess, sys, tempfile, time
 
 VERIF = os.path.dirname(os.path.dirname(os.path.abspath(__file__)))
-REPO = os.environ.get("VERIF_REPO", "/repo")
+REPO = os.environ.get("VERIF_REPO", "/repo")   # VERIF_REPO: test a scratch worktree instead
 COQ = os.path.join(VERIF, "coq")
 BUILD = os.path.join(VERIF, "build")
 GUARD = "UV_VERIF"
@@ -145,32 +145,93 @@ def coq_scan_forbidden():
     return bad
 
 
+def _coq_files():
+    out = []
+    for root, _, files in os.walk(COQ):
+        if os.path.basename(root) == "Extract":
+            continue
+        for f in files:
+            if f.endswith(".v"):
+                out.append(os.path.relpath(os.path.join(root, f), COQ))
+    return sorted(out)
+
+
+def coq_build(target_v):
+    """Compile [target_v] (path relative to /verif/coq) and everything it depends on,
+    re-compiling whatever is stale.  Independent of _CoqProject/Makefile so that it
+    always reflects the .v files on disk.  Returns (ok, log)."""
+    files = _coq_files()
+    r = sh(["coqdep", "-Q", ".", "UV"] + files, cwd=COQ, stderr=subprocess.DEVNULL)
+    deps = {}
+    for line in r.stdout.splitlines():
+        m = re.match(r"^(\S+)\.vo.*?:\s*(.*)$", line)
+        if not m or ".vio" in line.split(":")[0]:
+            continue
+        deps[m.group(1) + ".v"] = [d[:-1] for d in m.group(2).split() if d.endswith(".vo")]
+    order, seen = [], set()
+
+    def visit(v):
+        if v in seen:
+            return
+        seen.add(v)
+        for d in deps.get(v, []):
+            visit(d)
+        order.append(v)
+    visit(target_v)
+    log = ""
+    rebuilt = set()
+    for v in order:
+        vo = os.path.join(COQ, v + "o")
+        src = os.path.join(COQ, v)
+        stale = (not os.path.exists(vo)) or os.path.getmtime(vo) < os.path.getmtime(src) or \
+            any(d in rebuilt or (os.path.exists(os.path.join(COQ, d + "o")) and
+                                 os.path.getmtime(os.path.join(COQ, d + "o")) > os.path.getmtime(vo))
+                for d in deps.get(v, []))
+        if stale and v != target_v:
+            c = sh(["timeout", "1800", "coqc", "-Q", ".", "UV", v], cwd=COQ)
+            log += c.stdout[-2000:]
+            if c.returncode != 0:
+                return False, log
+            rebuilt.add(v)
+    return True, log
+
+
 def coq_obligations(prop):
-    """Rebuild what Properties_<prop>.v depends on, re-check that file and return
-    (obligations, discharged, details, checker_cmd)."""
-    target = "Properties/Properties_%s.vo" % prop
-    src = os.path.join(COQ, "Properties", "Properties_%s.v" % prop)
-    if not os.path.exists(os.path.join(COQ, "Makefile")):
-        sh(["coq_makefile", "-f", "_CoqProject", "-o", "Makefile"], cwd=COQ)
-    mk = sh(["timeout", "1800", "make", "-k", "-j%d" % JOBS, target], cwd=COQ)
-    names = re.findall(r"^\s*(?:Theorem|Lemma|Corollary|Example)\s+(\w+)", open(src).read(), re.M)
-    cmd = "coqc -Q . UV Properties/Properties_%s.v" % prop
-    r = sh(["timeout", "900", "coqc", "-Q", ".", "UV", "Properties/Properties_%s.v" % prop], cwd=COQ)
-    ok = (mk.returncode == 0 and r.returncode == 0)
-    out = r.stdout
-    # Print Assumptions output per theorem, in order
-    chunks = re.split(r"(?=Closed under the global context|Axioms:)", out)
-    assumptions = []
-    for c in chunks[1:]:
-        c = c.strip()
-        assumptions.append("closed" if c.startswith("Closed under") else c[:2000])
-    details = {"theorems": names, "assumptions": assumptions, "coqc_ok": ok}
-    if not ok:
-        details["log"] = (mk.stdout[-3000:] if mk.returncode != 0 else "") + out[-3000:]
+    """Re-check Properties_<prop>.v and Properties_<prop>_*.v (after bringing their
+    dependencies up to date); return (obligations, discharged, details, checker_cmd)."""
+    import glob
+    rels = sorted(os.path.relpath(p, COQ) for p in
+                  glob.glob(os.path.join(COQ, "Properties", "Properties_%s.v" % prop)) +
+                  glob.glob(os.path.join(COQ, "Properties", "Properties_%s_*.v" % prop)))
+    total, done, cmds = 0, 0, []
+    details = {"files": {}}
+    for rel in rels:
+        src = os.path.join(COQ, rel)
+        ok_deps, log = coq_build(rel)
+        names = re.findall(r"^\s*(?:Theorem|Lemma|Corollary|Example)\s+(\w+)", open(src).read(), re.M)
+        cmds.append("coqc -Q . UV %s" % rel)
+        out, ok = "", False
+        if ok_deps:
+            r = sh(["timeout", "1800", "coqc", "-Q", ".", "UV", rel], cwd=COQ)
+            ok = r.returncode == 0
+            out = r.stdout
+        chunks = re.split(r"(?=Closed under the global context|Axioms:)", out)
+        assumptions = []
+        for c in chunks[1:]:
+            c = c.strip()
+            assumptions.append("closed" if c.startswith("Closed under") else c[:2000])
+        d = {"theorems": names, "assumptions": assumptions, "coqc_ok": ok}
+        if not ok:
+            d["log"] = log[-3000:] + out[-3000:]
+        details["files"][rel] = d
+        total += len(names)
+        done += len(names) if ok else 0
     forb = coq_scan_forbidden()
     details["forbidden_tokens"] = forb
-    discharged = len(names) if ok and not forb else 0
-    return len(names), discharged, details, "cd /verif/coq && make %s && %s" % (target, cmd)
+    if forb:
+        done = 0
+    return total, done, details, "cd /verif/coq && " + " && ".join(cmds) + \
+        "  (dependencies rebuilt first by lib/vf.py coq_build)"
 
 
 def model_bin(prop):
